@@ -110,7 +110,11 @@ static std::string mutateFocused(const std::string& base, Rng& rng, std::vector<
             char* e = nullptr; strtod(t[k].c_str(), &e);
             if (e && *e == 0 && e != t[k].c_str()) { nums.push_back(k); if (t[k].find_first_not_of("-0123456789") == std::string::npos && t[k].size() < 10) ints.push_back(k); }
         }
-        switch (rng.below(8)) {
+        switch (rng.below(9)) {
+        case 8: { // more values than the record announces: a repeat count in front of the last value
+            size_t k = t.size(); while (k > 0 && (t[k - 1] == "/" || t[k - 1].empty())) --k;
+            if (k > 0) { static const char* N[] = {"2", "8", "40", "100", "1000"}; std::string last = t[k - 1]; if (last.find('*') != std::string::npos) last = last.substr(last.find('*') + 1); if (last.empty()) last = "1"; t.insert(t.begin() + k, std::string(N[rng.below(5)]) + "*" + last); }
+            ops.push_back("record-lengthen"); break; }
         case 0: case 1: case 2: if (!ints.empty()) { size_t k = ints[rng.below(ints.size())]; long v = atol(t[k].c_str()); t[k] = std::to_string(v + (rng.chance(0.5) ? 1 : -1)); ops.push_back("int-step"); break; }
             /* fall through */
         case 3: if (!nums.empty()) { size_t k = nums[rng.below(nums.size())]; const char* R[] = {"0", "-1", "1e20", "1e-20", "-0.5", "2147483647", "1000000"}; t[k] = R[rng.below(7)]; ops.push_back("number-replace"); break; }
@@ -232,21 +236,34 @@ int main(int argc, char** argv) {
                     if (!t.empty() && t.size() < 10 && t.find_first_not_of("0123456789") == std::string::npos) sites.push_back({i, k});
                 }
             }
-            const long total = 2 * (long)sites.size();
+            // plus, per data line that ends a record, one variant with 40 more copies of its last value ("more values than announced")
+            std::vector<size_t> recLines;
+            for (size_t i = 0; i < lines.size(); ++i) if (toks[i].size() >= 2 && toks[i].back() == "/") recLines.push_back(i);
+            const long total = 2 * (long)sites.size() + (long)recLines.size();
             const long step = std::max(1L, (total + cap - 1) / cap);
             long ran = 0, deep = 0;
             std::set<std::string> kwTouched;
             std::string curKw;
             for (long v = (long)rng.below((uint64_t)step); v < total; v += step) {
-                const Site& st = sites[v / 2];
-                const long val = atol(toks[st.line][st.tok].c_str()) + ((v % 2) ? -1 : 1);
-                if (val < 0) continue;
-                auto t = toks[st.line]; t[st.tok] = std::to_string(val);
+                Site st; long val = 0; std::vector<std::string> t;
+                std::string fromTok;
+                if (v < 2 * (long)sites.size()) {
+                    st = sites[v / 2];
+                    val = atol(toks[st.line][st.tok].c_str()) + ((v % 2) ? -1 : 1);
+                    if (val < 0) continue;
+                    t = toks[st.line]; fromTok = t[st.tok]; t[st.tok] = std::to_string(val);
+                } else {
+                    st.line = recLines[v - 2 * (long)sites.size()]; st.tok = toks[st.line].size() - 2;
+                    t = toks[st.line];
+                    std::string last = t[st.tok]; if (last.find('*') != std::string::npos) last = last.substr(last.find('*') + 1); if (last.empty()) last = "1";
+                    fromTok = "(record)"; val = 40;
+                    t.insert(t.begin() + st.tok + 1, "40*" + last);
+                }
                 std::string txt;
                 for (size_t i = 0; i < lines.size(); ++i) { txt += (i == st.line ? join(t) : lines[i]); txt += "\n"; }
                 size_t a = st.line; while (a > 0 && !(lines[a].size() && std::isupper((unsigned char)lines[a][0]) && lines[a].find(' ') == std::string::npos)) --a;
                 kwTouched.insert(lines[a].substr(0, 8));
-                rep.journal_note("origin: " + origin + "\nsweep: line " + std::to_string(st.line + 1) + " token " + std::to_string(st.tok + 1) + " (" + toks[st.line][st.tok] + " -> " + std::to_string(val) + ") under keyword " + lines[a] + "\n--- mutated text ---\n" + txt);
+                rep.journal_note("origin: " + origin + "\nsweep: line " + std::to_string(st.line + 1) + " token " + std::to_string(st.tok + 1) + " (" + fromTok + " -> " + std::to_string(val) + ") under keyword " + lines[a] + "\n--- mutated text ---\n" + txt);
                 std::string what; int depth = 0;
                 try { depth = pipeline(parser, txt, false, "", python, what); }
                 catch (...) { rep.violation("non-std-exception", "something not derived from std::exception was thrown", "origin: " + origin + "\n--- mutated text ---\n" + txt); }
